@@ -547,6 +547,17 @@ class Prop(Check):
         "Repo.C17_str_identity",
         "Repo.C17_str_lookup_order",
         "Repo.C17_preload",
+        "Repo.C17_cached_any",
+        "Repo.C17_cached_closure",
+        "Repo.C17_step_wf",
+        "Repo.C17_history_wf",
+        "Repo.C17_history_wf_glob",
+        "Repo.C17_load_base",
+        "Repo.C17_history_terminates",
+        "Repo.C17_history_wf_fueled",
+        "Repo.C17_history_next",
+        "Repo.C17_targets_untouched",
+        "Repo.C17_history_identity",
     ]
     DRIVER = "Drivers/Repo.lean"
     QUICK_CASES = 300
@@ -841,6 +852,21 @@ class Prop(Check):
             for key in ("res", "reads", "ret", "all", "mm", "locs", "tgt"):
                 if x.get(key) != y.get(key):
                     return f"step {k}: {key} differs: impl {x.get(key)} model {y.get(key)}"
+        # `Repo.visible` (C18_semantic_cause / C18_repair_succeeds) against the real load: textX fails at
+        # reference resolution exactly when a text parsed in the load has a reference without visible definition
+        for k, (step, o, m) in enumerate(zip(case["steps"], obs["steps"], out["steps"])):
+            if step_kind(step) == "preload":
+                continue
+            un = m.get("unres")
+            if un is None:
+                return f"step {k}: the model reports no 'unres'"
+            if o["res"] == "semantic" and not un:
+                return (f"step {k}: the load failed at reference resolution but every reference has a visible "
+                        f"definition (Repo.visible)")
+            # (a model processor error may come from an imported model, before references are resolved)
+            if o["res"] in ("ok", "objproc") and un:
+                return (f"step {k}: the load got past reference resolution ({o['res']}) but references {un} have "
+                        f"no visible definition (Repo.visible)")
         return None
 
     # ---------------------------------------------------------------- oracle
